@@ -191,6 +191,57 @@ def run(ctx):
             if a.shape != b.shape or not np.abs(a - b).max() <= 1e-9 * (1 + np.abs(b).sum()):
                 ctx.violation(sig_of(c, 'fft-vs-dft', 'none'), {'K': c['K'], 'pupil': c['pupil'], 'fft': a, 'dft': b},
                               case={'case': c, 'spec': spec[c['id']], 'mode': 'none'})
+                continue
+            # 3b. the two results are the SAME wavefront for whatever comes next: propagated on (back to a pupil plane, with the DFT
+            #     and with the FFT, with and without scratch) they must keep agreeing - a result may not carry more than its window
+            wf_, wd_ = rf_[-1].get('_wavefront'), rd_[-1].get('_wavefront')
+            if wf_ is not None and wd_ is not None and min(a.shape) >= 2:
+                px2 = (float(g['dx'][0]), float(g['dx'][1]))
+                try:
+                    b_f = lentil.propagate_dft(wf_, pixelscale=px2, shape=(5, 6), oversample=1).field
+                    b_d = lentil.propagate_dft(wd_, pixelscale=px2, shape=(5, 6), oversample=1).field
+                    ok_chain = np.abs(b_f - b_d).max() <= 1e-9 * (1 + np.abs(b_d).sum())
+                    f_ns = lentil.propagate_fft(wf_, pixelscale=px2, oversample=1)
+                    big = np.full((64, 64), 3 - 1j, dtype=complex)
+                    f_s = lentil.propagate_fft(wf_, pixelscale=px2, oversample=1, scratch=big) if max(f_ns.shape) <= 64 else f_ns
+                    ok_scr = f_ns.field.shape == f_s.field.shape and np.abs(f_ns.field - f_s.field).max() <= 1e-9 * (1 + np.abs(f_ns.field).sum())
+                except Exception as ex:
+                    ok_chain, ok_scr = False, False
+                if not (ok_chain and ok_scr):
+                    ctx.violation(dict(sig_of(c, 'result-carries-more-than-its-window', 'none'), window_smaller_than_grid=bool(a.shape[0] < c['K'][0] or a.shape[1] < c['K'][1])),
+                                  {'K': c['K'], 'shape': list(a.shape), 'continued_with_dft_agrees': bool(ok_chain), 'continued_with_fft_scratch_agrees': bool(ok_scr)},
+                                  case={'case': c, 'spec': spec[c['id']], 'mode': 'none'})
+    # 4. per-axis sampling whose two axes round to grids implying DIFFERENT wavelengths: the function reports one wavelength; its field
+    #    must be the DFT field at that wavelength (numeric comparison on real wavefronts; zero OPD so that only the propagation matters)
+    import copy
+    nan_ = 0
+    for _ in range(20 if q else 150):
+        m_, n_ = rng.randint(5, 9), rng.randint(5, 9)
+        amp_ = np.array([[rng.choice((1, 1, 2, 0)) for _ in range(n_)] for _ in range(m_)], dtype=float)
+        amp_[0, 0] = amp_[-1, -1] = 1
+        lam_, z_, dxx = 500e-9, 0.2, 1e-3
+        kr, kc = rng.randint(12, 24), rng.randint(12, 24)
+        fr_, fc_ = rng.choice((0.0, 0.3, -0.3)), rng.choice((0.3, -0.3, 0.2))
+        du_ = (lam_ * z_ / ((kr + fr_) * dxx), lam_ * z_ / ((kc + fc_) * dxx))          # 1/alpha = kr + fr, kc + fc  (never a half)
+        w_ = lentil.Wavefront(lam_) * lentil.Pupil(amplitude=amp_, pixelscale=dxx, focal_length=z_)
+        nan_ += 1
+        ctx.case(('aniso', m_, n_, kr, kc, fr_, fc_))
+        try:
+            rf2 = lentil.propagate_fft(w_, pixelscale=du_, oversample=1)
+            w2_ = copy.deepcopy(w_)
+            w2_._wavelength = rf2.wavelength
+            rd2 = lentil.propagate_dft(w2_, pixelscale=du_, shape=tuple(int(v) for v in rf2.shape), oversample=1)
+            diff = np.abs(rf2.field - rd2.field).max() / np.abs(rd2.field).max()
+        except Exception as ex:
+            ctx.violation({'kind': 'fft-vs-dft-at-reported-wavelength-' + type(ex).__name__}, {'error': repr(ex)[:200]}, case=None)
+            continue
+        lam_axes = (kr * dxx * du_[0] / z_, kc * dxx * du_[1] / z_)
+        same = abs(lam_axes[0] - lam_axes[1]) <= 1e-12 * lam_
+        if diff > 1e-9:
+            ctx.violation({'kind': 'fft-vs-dft-at-reported-wavelength', 'axes_imply_different_wavelengths': not same},
+                          {'pupil': [m_, n_], 'one_over_alpha': [kr + fr_, kc + fc_], 'grid': [int(v) for v in rf2.shape], 'reported_wavelength': rf2.wavelength,
+                           'wavelength_per_axis': lam_axes, 'max_rel_difference': float(diff)}, case=None)
+    ctx.extra['per_axis_rounding_cases'] = nan_
     ox.binding_selftest(ctx, lentil, cases[0], spec[cases[0]['id']])
     ctx.traces += len(cases) + 3 * nhist
     ctx.extra.update({'geometries': len(geoms), 'scratch_histories': nhist, 'fft_vs_dft_real_comparisons': ncmp,
@@ -200,8 +251,8 @@ def run(ctx):
     ctx.rule = ('geometry = (K_row, K_col in 4..9, pupil shape <= K, oversample 1..3, exact or rounded 1/alpha); cases = accepted '
                 'shapes, default shape, first refused shape, tilt-carrying wavefronts; each case also inside random histories of 3 '
                 'calls sharing a scratch buffer in three regimes; distinct by (case, scratch regime)')
-    ctx.assumptions += ['geometries whose two axes would imply different propagation wavelengths are outside the domain (the function '
-                        'reports one wavelength); exact halves in round(1/alpha) are avoided']
+    ctx.assumptions += ['exact halves in round(1/alpha) are avoided (rounding ties)', 'geometries whose axes round to different wavelengths are compared numerically '
+                        '(propagate_fft against propagate_dft at the reported wavelength), not in exact arithmetic']
 
 
 def replay(ctx, rec):
